@@ -238,7 +238,7 @@ func pathTo(start, target *ssa.BasicBlock, cut map[Edge]bool) []*ssa.BasicBlock 
 		prev Node
 		has  bool
 	}
-	s0 := Node{start, nil}
+	s0 := Node{B: start}
 	prev := map[Node]link{s0: {}}
 	queue := []Node{s0}
 	for len(queue) > 0 {
